@@ -168,6 +168,14 @@ theorem persist_frame (kr : Keyring) : ∀ w ∈ (persist kr).1, w.path ≠ .sto
 theorem mem_persist_fst {kr : Keyring} {ws : List PWrite} {r : Res} {w : PWrite} (hp : persist kr = (ws, r)) (hw : w ∈ ws) :
     w.path ≠ .stored ∧ w.path ≠ .sealcfg := persist_frame kr w (by rw [hp]; exact hw)
 
+theorem persistNs_frame (ns : Bool) (kr : Keyring) :
+    ∀ w ∈ (persistNs ns kr).1, w.path ≠ .stored ∧ w.path ≠ .sealcfg :=
+  fun w hw => persist_frame kr w (mem_persistNs_fst ns kr w hw)
+
+theorem mem_persistNs_frame {ns : Bool} {kr : Keyring} {ws : List PWrite} {r : Res} {w : PWrite}
+    (hp : persistNs ns kr = (ws, r)) (hw : w ∈ ws) :
+    w.path ≠ .stored ∧ w.path ≠ .sealcfg := persistNs_frame ns kr w (by rw [hp]; exact hw)
+
 theorem step_frame (ns : Bool) (p : Phys) (b : Barrier) (fk : Key) (op : Op) (hni : ∀ k s, op ≠ .init k s) :
     ∀ w ∈ (step ns p b fk op).writes, w.path ≠ .stored ∧ w.path ≠ .sealcfg := by
   intro w hw
@@ -181,7 +189,7 @@ theorem step_frame (ns : Bool) (p : Phys) (b : Barrier) (fk : Key) (op : Op) (hn
       · split at hw
         · simp at hw
         · rename_i nkr _
-          split at hw <;> exact persist_frame nkr w (by simp_all)
+          split at hw <;> exact persistNs_frame ns nkr w (by simp_all)
   | rotroot k =>
     simp only [step] at hw
     split at hw
@@ -191,20 +199,20 @@ theorem step_frame (ns : Bool) (p : Phys) (b : Barrier) (fk : Key) (op : Op) (hn
       · split at hw
         · simp at hw
         · rename_i kr _
-          split at hw <;> exact persist_frame { kr with root := k } w (by simp_all)
+          split at hw <;> exact persistNs_frame ns { kr with root := k } w (by simp_all)
   | init k s => exact absurd rfl (hni k s)
   | tick =>
     simp only [step] at hw
     repeat' split at hw
     all_goals first
       | (simp at hw; done)
-      | exact mem_persist_fst (by assumption) hw
+      | exact mem_persistNs_frame (by assumption) hw
   | setrot d =>
     simp only [step] at hw
     repeat' split at hw
     all_goals first
       | (simp at hw; done)
-      | exact mem_persist_fst (by assumption) hw
+      | exact mem_persistNs_frame (by assumption) hw
   | _ => simp only [step] at hw; repeat' split at hw
          all_goals simp at hw
          all_goals (try subst hw); simp [PWrite.path]
